@@ -375,7 +375,7 @@ def check_gridkernel(out, cases, verbose=False):
                              [nats(c["sizes"]) for c in cases], shard=8)
     impl, terms = [], []
     for c in cases:
-        grid = create_grid(c["sizes"], [tuple(b) for b in c["bounds"]], extend=False, dtype=torch.float64)
+        grid = [torch.linspace(b[0], b[1], g, dtype=torch.float64) for g, b in zip(c["sizes"], c["bounds"])]
         base = base_kernel(c["kernel"], c["d"], c["ls"])
         full = create_data_from_grid(grid)
         with torch.no_grad(), gs.use_toeplitz(c["toeplitz"]):
